@@ -128,6 +128,13 @@ Theorem tt_first_boundary_refuted :
   validate_tt bc_tt = Err /\ exists t, tt_to_tensor Zops bc_tt = Ok t /\ shape t = [3; 4].
 Proof. split; [reflexivity|]. eexists. split; [vm_compute; reflexivity | reflexivity]. Qed.
 
+(* tensor ring, both backends: two cores of shapes (r0, n0, r1) and (r0, n1, r1) with r0 <> r1 -- the last one with its ranks swapped -- are not a
+   ring (the validator rejects it) but passes tr_to_tensor's reshape / moveaxis / dot closure *)
+Definition bc_tr : list (tensor Z) := [mk [1; 2; 2] [1; 2; 3; 4]%Z; mk [1; 3; 2] [1; 0; 2; -1; 1; 1]%Z].
+Theorem tr_swapped_last_refuted :
+  validate_tr bc_tr = Err /\ exists t, tr_to_tensor Zops bc_tr = Ok t /\ shape t = [2; 3].
+Proof. split; [reflexivity|]. eexists. split; [vm_compute; reflexivity | reflexivity]. Qed.
+
 (* the restricted statement that does hold: operands with a genuine (non size-1) mismatch are refused by the einsum routes too *)
 Section R.
 Variable F : Type.
